@@ -24,31 +24,528 @@ Qed.
 Lemma tx_free_get w t th : tx_free w = true -> get_thread (w_threads w) t = Some th -> holds_tx th = false.
 Proof. unfold tx_free. intros E. apply negb_true_iff in E. now apply existsb_get. Qed.
 
-(* ---------- I_closed: once the sender is taken no dispatcher is inside a send --------------- *)
+(* ---------- the close protocol ------------------------------------------------------------
+   open:    the sender exists, no exit marker is queued, nobody is sending the marker
+   closing: the sender has been taken; its owner is inside the send of the marker (holding TX);
+            no dispatcher is inside a send
+   closed:  the marker was sent (or lost under DropLatest) and the queue is disconnected; nothing is
+            sent any more; the marker, if queued, is the last item; once the reducer has left its
+            loop the queue is empty *)
 Definition is_sending (th : thread) : bool :=
   match th with TClient _ _ (PSending _ _ _) => true | _ => false end.
 Definition is_close_sending (th : thread) : bool :=
   match th with TClient _ _ (PCloseSending _ _) => true | _ => false end.
-
-(* the queue: actions, then at most one exit marker, which is last *)
-Definition exit_last (l : list (item aid)) : Prop :=
-  forall l1 l2, l = l1 ++ IExit :: l2 -> l2 = [].
-
 Definition post_exit (pc : rpc (State := State)) : bool :=
   match pc with
   | RClearLock | RClear _ | RClearCtx _ _ | RClearJoin _ _ | RClearIterSend _ _ _ | RDone => true
   | _ => false
   end.
+Definition is_post (th : thread) : bool := match th with TReducer pc => post_exit pc | _ => false end.
 
-Definition reducer_pc w : option rpc :=
-  match get_thread (w_threads w) reducer_tid with Some (TReducer pc) => Some pc | _ => None end.
+Definition exit_last (l : list (item aid)) : Prop := forall l1 l2, l = l1 ++ IExit :: l2 -> l2 = [].
 
-Definition inv_closed w : Prop :=
-  (* open: no marker in the queue, the sender exists *)
-  (w_tx_open w = true -> tx_alive (w_dq w) = true /\ ~ In IExit (q (w_dq w)) /\
-                        threads_all (fun th => is_close_sending th = false) (w_threads w)) /\
-  (* closed: nobody is inside a dispatch send *)
-  (w_tx_open w = false -> threads_all (fun th => is_sending th = false) (w_threads w)) /\
-  exit_last (q (w_dq w)).
+Definition th_open (th : thread) : Prop := is_close_sending th = false /\ is_post th = false.
+Definition th_closing (th : thread) : Prop := is_sending th = false /\ is_post th = false.
+Definition th_closed (th : thread) : Prop := is_sending th = false /\ is_close_sending th = false.
+Definition th_not_post (th : thread) : Prop := is_post th = false.
+
+Definition threads_all_but (tc : N) (P : thread -> Prop) (l : list (N * thread)) : Prop :=
+  forall t th, t <> tc -> get_thread l t = Some th -> P th.
+Lemma threads_all_but_put tc P l t th :
+  threads_all_but tc P l -> (t = tc \/ P th) -> threads_all_but tc P (put_thread l t th).
+Proof.
+  intros H Hp t0 th0 Hne G. destruct (N.eq_dec t0 t) as [->|Hn].
+  - rewrite get_put_same in G. injection G as <-. destruct Hp; [contradiction|assumption].
+  - rewrite get_put_other in G by assumption. eapply H; eauto.
+Qed.
+
+Lemma threads_all_put_but tc P l th :
+  threads_all_but tc P l -> P th -> threads_all P (put_thread l tc th).
+Proof.
+  intros H Hp t0 th0 G. destruct (N.eq_dec t0 tc) as [->|Hn].
+  - rewrite get_put_same in G. now injection G as <-.
+  - rewrite get_put_other in G by assumption. eapply H; eauto.
+Qed.
+
+Inductive close_state w : Prop :=
+| CSOpen : w_tx_open w = true -> tx_alive (w_dq w) = true -> ~ In IExit (q (w_dq w)) ->
+           threads_all th_open (w_threads w) -> close_state w
+| CSClosing : w_tx_open w = false -> tx_alive (w_dq w) = true -> ~ In IExit (q (w_dq w)) ->
+           threads_all th_closing (w_threads w) ->
+           (exists tc, threads_all_but tc (fun th => is_close_sending th = false) (w_threads w)) ->
+           close_state w
+| CSClosed : w_tx_open w = false -> tx_alive (w_dq w) = false -> exit_last (q (w_dq w)) ->
+           threads_all th_closed (w_threads w) ->
+           (threads_all th_not_post (w_threads w) \/ q (w_dq w) = []) -> close_state w.
+
+Lemma exit_last_nil : exit_last [].
+Proof. intros l1 l2 E. destruct l1; discriminate. Qed.
+Lemma exit_last_no_exit l : ~ In IExit l -> exit_last l.
+Proof. intros N l1 l2 E. exfalso. apply N. rewrite E. apply in_or_app. right. now left. Qed.
+Lemma exit_last_snoc_exit l : ~ In IExit l -> exit_last (l ++ [IExit]).
+Proof.
+  intros N l1 l2 E. destruct l2 as [|y l2]; [reflexivity|exfalso].
+  assert (L : l1 ++ IExit :: y :: l2 = (l1 ++ [IExit]) ++ y :: l2) by (rewrite <- app_assoc; reflexivity).
+  rewrite L in E. destruct l2 as [|z l2] using rev_ind.
+  - apply app_inj_tail in E. destruct E as [E _]. apply N. rewrite E. apply in_or_app. right. now left.
+  - clear IHl2. rewrite app_comm_cons, app_assoc in E. apply app_inj_tail in E. destruct E as [E _].
+    apply N. rewrite E. apply in_or_app. left. apply in_or_app. right. now left.
+Qed.
+Lemma exit_last_tail x l : exit_last (x :: l) -> exit_last l.
+Proof. intros H l1 l2 E. apply (H (x :: l1) l2). cbn. now rewrite E. Qed.
+Lemma exit_last_head_exit l : exit_last (IExit :: l) -> l = [].
+Proof. intros H. apply (H [] l). reflexivity. Qed.
+
+
+(* ---------- what a dispatch-queue phase does, as far as the close protocol cares ---------- *)
+Definition same_ctl w w1 : Prop :=
+  w_tx_open w1 = w_tx_open w /\ w_threads w1 = w_threads w /\ w_pool w1 = w_pool w /\
+  w_subs w1 = w_subs w /\ w_next_tid w1 = w_next_tid w /\ w_state w1 = w_state w /\
+  w_reducers w1 = w_reducers w /\ w_mws w1 = w_mws w /\ w_lasts w1 = w_lasts w /\
+  w_iter_done w1 = w_iter_done w.
+
+Lemma dq_phase_frame w x ph w1 sr : dq_phase w x ph = Some (w1, sr) ->
+  tx_alive (w_dq w1) = tx_alive (w_dq w) /\ w_chans w1 = w_chans w /\ same_ctl w w1 /\
+  ((q (w_dq w1) = q (w_dq w) ++ [x] /\ sr = SDone true) \/
+   (exists old, q (w_dq w) = old :: q (w_dq w1) /\ sr = SMore SDo3) \/
+   (q (w_dq w1) = q (w_dq w) /\ sr <> SDone true)).
+Proof.
+  unfold dq_phase. destruct (send_phase (w_dq w) x ph) as [[[dq' sr'] dr]|] eqn:E; [|discriminate].
+  intros H; injection H as <- <-. cbn.
+  pose proof (send_phase_inv _ _ _ _ _ _ E) as (_ & _ & T & _).
+  split; [exact T|split; [reflexivity|split; [repeat split|]]].
+  apply send_phase_contents in E. destruct E as [(Q & -> & _)|[(old & Q & _ & -> & _)|(Q & NT & _)]].
+  - left. auto.
+  - right; left. eauto.
+  - right; right. split; [exact Q|]. intros ->. now apply NT.
+Qed.
+
+Lemma dq_phase_no_exit_act w a ph w1 sr : dq_phase w (IAct a) ph = Some (w1, sr) ->
+  ~ In IExit (q (w_dq w)) -> ~ In IExit (q (w_dq w1)).
+Proof.
+  intros H N. apply dq_phase_frame in H. destruct H as (_ & _ & _ & [(Q & _)|[(old & Q & _)|(Q & _)]]).
+  - rewrite Q. intros I. apply in_app_or in I. destruct I as [I|[I|[]]]; [now apply N|discriminate].
+  - intros I. apply N. rewrite Q. now right.
+  - now rewrite Q.
+Qed.
+Lemma dq_phase_no_exit_more w x ph w1 ph' : dq_phase w x ph = Some (w1, SMore ph') ->
+  ~ In IExit (q (w_dq w)) -> ~ In IExit (q (w_dq w1)).
+Proof.
+  intros H N. apply dq_phase_frame in H. destruct H as (_ & _ & _ & [(_ & E)|[(old & Q & _)|(Q & _)]]).
+  - discriminate.
+  - intros I. apply N. rewrite Q. now right.
+  - now rewrite Q.
+Qed.
+Lemma dq_phase_exit_done w ph w1 ok : dq_phase w IExit ph = Some (w1, SDone ok) ->
+  ~ In IExit (q (w_dq w)) -> exit_last (q (w_dq w1)).
+Proof.
+  intros H N. apply dq_phase_frame in H. destruct H as (_ & _ & _ & [(Q & _)|[(old & Q & E)|(Q & _)]]).
+  - rewrite Q. now apply exit_last_snoc_exit.
+  - discriminate.
+  - rewrite Q. now apply exit_last_no_exit.
+Qed.
+
+Lemma sub_phase_frame w sid x ph w1 sr : sub_phase w sid x ph = Some (w1, sr) ->
+  w_dq w1 = w_dq w /\ same_ctl w w1.
+Proof.
+  unfold sub_phase. destruct (get_chan (w_chans w) sid) as [c|].
+  - destruct (send_phase c x ph) as [[[c' sr'] dr]|]; [|discriminate].
+    intros H; injection H as <- <-. cbn. split; [reflexivity|repeat split].
+  - intros H; injection H as <- <-. split; [reflexivity|repeat split].
+Qed.
+
+(* frame facts of the phases that occurred in a leaf *)
+Ltac use_frames :=
+  repeat match goal with
+  | H : dq_phase _ _ _ = Some (_, _) |- _ =>
+      let F := fresh "FR" in pose proof (dq_phase_frame _ _ _ _ _ H) as F;
+      destruct F as (? & ? & (? & ? & ? & ? & ? & ? & ? & ? & ? & ?) & _); revert H
+  | H : sub_phase _ _ _ _ = Some (_, _) |- _ =>
+      let F := fresh "FR" in pose proof (sub_phase_frame _ _ _ _ _ _ H) as F;
+      destruct F as (? & (? & ? & ? & ? & ? & ? & ? & ? & ? & ?)); revert H
+  end; intros.
+
+Ltac rew_frames :=
+  simp_world;
+  repeat match goal with
+  | E : w_threads ?w1 = _ |- context [w_threads ?w1] => rewrite E
+  | E : w_tx_open ?w1 = _ |- context [w_tx_open ?w1] => rewrite E
+  | E : tx_alive (w_dq ?w1) = _ |- context [tx_alive (w_dq ?w1)] => rewrite E
+  | E : w_dq ?w1 = _ |- context [w_dq ?w1] => rewrite E
+  | E : w_next_tid ?w1 = _ |- context [w_next_tid ?w1] => rewrite E
+  | E : w_pool ?w1 = _ |- context [w_pool ?w1] => rewrite E
+  | E : w_subs ?w1 = _ |- context [w_subs ?w1] => rewrite E
+  | E : w_chans ?w1 = _ |- context [w_chans ?w1] => rewrite E
+  | E : w_state ?w1 = _ |- context [w_state ?w1] => rewrite E
+  | E : w_reducers ?w1 = _ |- context [w_reducers ?w1] => rewrite E
+  | E : w_mws ?w1 = _ |- context [w_mws ?w1] => rewrite E
+  | E : w_lasts ?w1 = _ |- context [w_lasts ?w1] => rewrite E
+  | E : w_iter_done ?w1 = _ |- context [w_iter_done ?w1] => rewrite E
+  end; simp_world.
+
+Lemma holds_tx_false th : holds_tx th = false -> is_sending th = false /\ is_close_sending th = false.
+Proof. destruct th as [r p pc| |]; [destruct pc|..]; cbn; intros; auto; discriminate. Qed.
+
+Ltac recv_facts :=
+  repeat match goal with
+  | H : recv ?c = Some (?o, ?c') |- _ =>
+      let F := fresh "RF" in pose proof (recv_some _ _ _ H) as F; destruct F as (? & ? & ? & ?); revert H
+  end; intros.
+
+Ltac ta_solve TA :=
+  rew_frames;
+  repeat (apply threads_all_put; [|unfold th_open, th_closing, th_closed, th_not_post; cbn; auto]);
+  first [ exact TA
+        | (let t0 := fresh in let th0 := fresh in let G0 := fresh in
+           intros t0 th0 G0; specialize (TA t0 th0 G0);
+           unfold th_open, th_closing, th_closed, th_not_post in *; tauto) ].
+
+Ltac no_exit NE :=
+  rew_frames;
+  first [ exact NE
+        | (eapply dq_phase_no_exit_act; [eassumption|exact NE])
+        | (eapply dq_phase_no_exit_more; [eassumption|exact NE])
+        | (match goal with Q : q ?c = _ :: q ?c' |- ~ In IExit (q ?c') =>
+             let I := fresh in intros I; apply NE; rewrite Q; right; exact I end) ].
+
+Lemma open_free_upgrade w : tx_free w = true -> threads_all th_open (w_threads w) ->
+  threads_all (fun th => th_closing th /\ th_closed th /\ th_not_post th) (w_threads w).
+Proof.
+  intros F TA t th G. destruct (TA t th G) as [C P]. pose proof (tx_free_get w t th F G) as HT.
+  apply holds_tx_false in HT. destruct HT as [S _]. unfold th_closing, th_closed, th_not_post. auto.
+Qed.
+
+Ltac but_solve TB :=
+  destruct TB as [tc TB]; exists tc; rew_frames;
+  repeat (apply threads_all_but_put; [|first [right; reflexivity | idtac]]);
+  first [ exact TB | idtac ].
+
+Theorem step_close w t w' : close_state w -> step w t = Some w' -> close_state w'.
+Proof.
+  intros CS H. step_cases H; use_frames; recv_facts.
+  all: destruct CS as [O A NE TA|O A NE TA TB|O A EL TA PQ].
+  all: try congruence.
+  all: try (match goal with G : get_thread (w_threads _) _ = Some _ |- _ =>
+              let F := fresh "F" in pose proof (TA _ _ G) as F; cbn in F; destruct F; discriminate end).
+  (* most steps stay in the same state *)
+  all: try (apply CSOpen; [rew_frames; congruence|rew_frames; congruence|no_exit NE|ta_solve TA]; fail).
+  all: try (apply CSClosing; [rew_frames; congruence|rew_frames; congruence|no_exit NE|ta_solve TA|but_solve TB]; fail).
+  (* closed stays closed *)
+  all: try (apply CSClosed;
+            [ rew_frames; congruence | rew_frames; congruence
+            | rew_frames; first [exact EL | (match goal with Q : q ?c = _ :: q ?c' |- exit_last (q ?c') =>
+                                               rewrite Q in EL; eapply exit_last_tail; exact EL end)]
+            | ta_solve TA
+            | rew_frames; destruct PQ as [PQ|PQ];
+              [ first [ solve [left; ta_solve PQ]
+                      | (exfalso; match goal with G : get_thread (w_threads _) _ = Some _ |- _ =>
+                                   let F := fresh in pose proof (PQ _ _ G) as F; cbn in F; discriminate F end)
+                      | right; first [ assumption
+                                     | (match goal with Q : q ?c = IExit :: q ?c' |- q ?c' = [] =>
+                                          rewrite Q in EL; exact (exit_last_head_exit _ EL) end)
+                                     | tauto ] ]
+              | right; first [ exact PQ | congruence
+                             | (match goal with Q : q ?c = _ :: _ |- _ => rewrite PQ in Q; discriminate end) ] ] ]; fail).
+  (* the marker cannot be received while it is known not to be queued *)
+  all: try (match goal with Q : q ?c = IExit :: _, NE : ~ In IExit (q ?c) |- _ =>
+              exfalso; apply NE; rewrite Q; left; reflexivity end).
+  all: try (match goal with Q : q ?c = [] /\ _ , A : tx_alive ?c = true |- _ =>
+              destruct Q as (_ & _ & Q); congruence end).
+  (* closing: only the closer itself is inside the send of the marker *)
+  all: try (destruct TB as [tc TB];
+       (destruct (N.eq_dec t tc) as [E|Hne];
+        [subst tc|exfalso; pose proof (TB _ _ Hne Heqo) as F; discriminate F]);
+       assert (TC : threads_all_but t th_closed (w_threads w))
+         by (intros t0 th0 Hn G0; split; [apply (TA t0 th0 G0)|exact (TB t0 th0 Hn G0)]);
+       assert (TP : threads_all th_not_post (w_threads w)) by (intros t0 th0 G0; apply (TA t0 th0 G0))).
+  (* open -> closing: close() took the sender and is parked inside the send of the marker *)
+  - pose proof (open_free_upgrade w Heqb TA) as TU.
+    apply CSClosing; [rew_frames; reflexivity|rew_frames; exact A
+                     |rew_frames; exact (dq_phase_no_exit_more _ _ _ _ _ Heqo0 NE)| |exists t].
+    + rew_frames. apply threads_all_put; [|split; reflexivity].
+      intros t0 th0 G0. apply (TU t0 th0 G0).
+    + rew_frames. apply threads_all_but_put; [|left; reflexivity].
+      intros t0 th0 _ G0. apply (TU t0 th0 G0).
+  (* open -> closed: the marker was sent (or rejected) at once *)
+  - pose proof (open_free_upgrade w Heqb TA) as TU.
+    apply CSClosed; [rew_frames; reflexivity|rew_frames; reflexivity
+                    |rew_frames; exact (dq_phase_exit_done _ _ _ _ Heqo0 NE)| |left].
+    + rew_frames. apply threads_all_put; [|split; reflexivity]. intros t0 th0 G0. apply (TU t0 th0 G0).
+    + rew_frames. apply threads_all_put; [|reflexivity]. intros t0 th0 G0. apply (TU t0 th0 G0).
+  - pose proof (open_free_upgrade w Heqb TA) as TU.
+    apply CSClosed; [rew_frames; reflexivity|rew_frames; reflexivity
+                    |rew_frames; exact (dq_phase_exit_done _ _ _ _ Heqo0 NE)| |left].
+    + rew_frames. apply threads_all_put; [|split; reflexivity]. intros t0 th0 G0. apply (TU t0 th0 G0).
+    + rew_frames. apply threads_all_put; [|reflexivity]. intros t0 th0 G0. apply (TU t0 th0 G0).
+  - pose proof (open_free_upgrade w Heqb TA) as TU.
+    apply CSClosed; [rew_frames; reflexivity|rew_frames; reflexivity
+                    |rew_frames; exact (dq_phase_exit_done _ _ _ _ Heqo0 NE)| |left].
+    + rew_frames. apply threads_all_put; [|split; reflexivity]. intros t0 th0 G0. apply (TU t0 th0 G0).
+    + rew_frames. apply threads_all_put; [|reflexivity]. intros t0 th0 G0. apply (TU t0 th0 G0).
+  - apply CSClosing; [rew_frames; congruence|rew_frames; congruence
+                     |rew_frames; exact (dq_phase_no_exit_more _ _ _ _ _ Heqo0 NE)| |exists t].
+    + rew_frames. apply threads_all_put; [exact TA|split; reflexivity].
+    + rew_frames. apply threads_all_but_put; [exact TB|left; reflexivity].
+  - apply CSClosed; [rew_frames; congruence|rew_frames; reflexivity
+                    |rew_frames; exact (dq_phase_exit_done _ _ _ _ Heqo0 NE)| |left].
+    + rew_frames. apply threads_all_put_but; [exact TC|split; reflexivity].
+    + rew_frames. apply threads_all_put; [exact TP|reflexivity].
+  - apply CSClosed; [rew_frames; congruence|rew_frames; reflexivity
+                    |rew_frames; exact (dq_phase_exit_done _ _ _ _ Heqo0 NE)| |left].
+    + rew_frames. apply threads_all_put_but; [exact TC|split; reflexivity].
+    + rew_frames. apply threads_all_put; [exact TP|reflexivity].
+  - apply CSClosed; [rew_frames; congruence|rew_frames; reflexivity
+                    |rew_frames; exact (dq_phase_exit_done _ _ _ _ Heqo0 NE)| |left].
+    + rew_frames. apply threads_all_put_but; [exact TC|split; reflexivity].
+    + rew_frames. apply threads_all_put; [exact TP|reflexivity].
+Qed.
+
+Lemma init_close reducers mws progs : close_state (init_world cfg reducers mws progs).
+Proof.
+  apply CSOpen; try reflexivity; [intros []|].
+  intros t th G. unfold init_world in G. cbn in G.
+  assert (A : forall l i, get_thread (client_threads (State := State) i l ++ [(reducer_tid, TReducer RRecv)]) t = Some th ->
+              th_open th).
+  { induction l as [|p r IH]; intros i; cbn.
+    - destruct (N.eqb t reducer_tid); [|discriminate]. intros E; injection E as <-. split; reflexivity.
+    - destruct (N.eqb t i); [intros E; injection E as <-; split; reflexivity|apply IH]. }
+  eapply A; eauto.
+Qed.
+
+Theorem reachable_close reducers mws progs w :
+  reachable cfg reducers mws progs w -> close_state w.
+Proof.
+  intros [sched H]. eapply (run_invariant cfg close_state); [|apply init_close|exact H].
+  intros; eapply step_close; eauto.
+Qed.
+
+
+(* ---------- the reducer thread exists and is never overwritten ---------- *)
+Definition inv_tids w : Prop :=
+  (exists pc, get_thread (w_threads w) reducer_tid = Some (TReducer pc)) /\ (1000 <= w_next_tid w)%N.
+
+Lemma reducer_put_other (l : list (N * thread)) t th pc :
+  t <> reducer_tid -> get_thread l reducer_tid = Some (TReducer pc) ->
+  get_thread (put_thread l t th) reducer_tid = Some (TReducer pc).
+Proof. intros Hne G. rewrite get_put_other; auto. Qed.
+
+Theorem step_tids w t w' : inv_tids w -> step w t = Some w' -> inv_tids w'.
+Proof.
+  intros [[pc0 R] NT] H. step_cases H; use_frames.
+  all: try (apply N.eqb_eq in Heqb; subst t).
+  all: split; [|rew_frames; unfold first_worker_tid in *; try lia].
+  all: rew_frames.
+  all: try (eexists; apply get_put_same).
+  all: repeat match goal with
+       | |- context [get_thread (put_thread _ ?t0 _) reducer_tid] =>
+           rewrite (get_put_other _ t0 reducer_tid) by
+             (first [ (intros E0; rewrite <- E0 in *; congruence)
+                    | (unfold chan_tid, reducer_tid; lia)
+                    | (unfold reducer_tid; lia) ])
+       end.
+  all: try (eexists; exact R).
+Qed.
+
+
+Lemma client_threads_get (progs : list (list call)) : forall i t th,
+  get_thread (client_threads (State := State) i progs ++ [(reducer_tid, TReducer RRecv)]) t = Some th ->
+  (t < i + N.of_nat (length progs))%N \/ (t = reducer_tid /\ th = TReducer RRecv).
+Proof.
+  induction progs as [|p r IH]; intros i t th; cbn [client_threads app get_thread length].
+  - destruct (N.eqb_spec t reducer_tid); [|discriminate]. intros E; injection E as <-. right. auto.
+  - destruct (N.eqb_spec t i).
+    + intros _. left. lia.
+    + intros G. apply IH in G. destruct G as [G|G]; [left; lia|right; exact G].
+Qed.
+
+Lemma client_threads_reducer (progs : list (list call)) : forall i,
+  (i + N.of_nat (length progs) <= reducer_tid)%N ->
+  get_thread (client_threads (State := State) i progs ++ [(reducer_tid, TReducer RRecv)]) reducer_tid
+  = Some (TReducer RRecv).
+Proof.
+  induction progs as [|p r IH]; intros i L; cbn [client_threads app get_thread length] in *.
+  - now rewrite N.eqb_refl.
+  - destruct (N.eqb_spec reducer_tid i); [lia|]. apply IH. lia.
+Qed.
+
+(* at most 100 client programs: their tids 0..n-1 stay below the reducer's *)
+Lemma init_tids reducers mws progs : (length progs <= 100)%nat ->
+  inv_tids (init_world cfg reducers mws progs).
+Proof.
+  intros L. split; [|unfold init_world; cbn; unfold first_worker_tid; lia].
+  exists RRecv. unfold init_world. cbn [w_threads]. apply client_threads_reducer. unfold reducer_tid. lia.
+Qed.
+
+Theorem reachable_tids reducers mws progs w : (length progs <= 100)%nat ->
+  reachable cfg reducers mws progs w -> inv_tids w.
+Proof.
+  intros L [sched H]. eapply (run_invariant cfg inv_tids); [|apply init_tids; exact L|exact H].
+  intros; eapply step_tids; eauto.
+Qed.
+
+(* ---------- the pool join ---------- *)
+Lemma forallb_get (f : thread -> bool) (l : list (N * thread)) t th :
+  forallb (fun p => f (snd p)) l = true -> get_thread l t = Some th -> f th = true.
+Proof.
+  induction l as [|[t' th'] r IH]; cbn; [discriminate|].
+  intros E. apply andb_true_iff in E. destruct E as [E1 E2].
+  destruct (N.eqb t t'); [intros G; injection G as <-; exact E1|now apply IH].
+Qed.
+
+Lemma pool_idle_reducer w pc : pool_idle w = true ->
+  get_thread (w_threads w) reducer_tid = Some (TReducer pc) -> pc = RDone.
+Proof.
+  unfold pool_idle. intros F G.
+  pose proof (forallb_get (fun th => negb (is_pool_thread th) || thread_finished th) _ _ _ F G) as E. cbn in E.
+  destruct pc; try discriminate; reflexivity.
+Qed.
+
+(* when the reducer has left its loop the store is closed and the queue is empty *)
+Lemma reducer_done_closed w : close_state w ->
+  get_thread (w_threads w) reducer_tid = Some (TReducer RDone) ->
+  w_tx_open w = false /\ tx_alive (w_dq w) = false /\ q (w_dq w) = [].
+Proof.
+  intros CS G. destruct CS as [O A NE TA|O A NE TA TB|O A EL TA PQ].
+  - destruct (TA _ _ G) as [_ F]. discriminate.
+  - destruct (TA _ _ G) as [_ F]. discriminate.
+  - split; [exact O|split; [exact A|]]. destruct PQ as [PQ|PQ]; [|exact PQ].
+    pose proof (PQ _ _ G) as F. discriminate.
+Qed.
+
+
+(* ---------- C04: the barrier ---------- *)
+Theorem stop_barrier reducers mws progs w : (length progs <= 100)%nat ->
+  reachable cfg reducers mws progs w -> pool_idle w = true ->
+  get_thread (w_threads w) reducer_tid = Some (TReducer RDone) /\
+  w_tx_open w = false /\ q (w_dq w) = [] /\
+  (cfg_pol cfg = Block -> rev (enqs (w_hist w)) = rev (deqs (w_hist w))).
+Proof.
+  intros L R PI.
+  destruct (reachable_tids reducers mws progs w L R) as [[pc G] _].
+  pose proof (pool_idle_reducer w pc PI G) as ->.
+  pose proof (reachable_close reducers mws progs w R) as CS.
+  destruct (reducer_done_closed w CS G) as (O & _ & Q).
+  split; [exact G|split; [exact O|split; [exact Q|]]].
+  intros B. destruct (block_lossless cfg w (reachable_queue cfg reducers mws progs w R) B) as (_ & _ & E).
+  rewrite E, Q. cbn. now rewrite app_nil_r.
+Qed.
+
+(* ---------- C04: a stopped store stays quiet ---------- *)
+(* events that must not happen any more: reducer-context callbacks, effect runs, queue traffic,
+   write-backs, accepted dispatches *)
+Definition loud (e : event) : bool :=
+  match e with
+  | ECb XReducer _ => true
+  | ECb _ (CbEffectRun _) => true
+  | EEnq _ | EEnqExit | EDeq _ | EWrite _ _ | ESpawn _ _ => true
+  | ERet _ (CDispatch _ _) ROk => true
+  | _ => false
+  end.
+
+Definition stopped w : Prop :=
+  close_state w /\ inv_tids w /\ pool_idle w = true /\ w_pool w = false.
+
+Lemma forallb_put (f : thread -> bool) (l : list (N * thread)) t th :
+  forallb (fun p => f (snd p)) l = true -> f th = true ->
+  forallb (fun p => f (snd p)) (put_thread l t th) = true.
+Proof.
+  intros H Hf. induction l as [|[t' th'] r IH]; cbn in *.
+  - now rewrite Hf.
+  - apply andb_true_iff in H. destruct H as [H1 H2].
+    destruct (N.eqb t t'); cbn; [now rewrite Hf, H2|rewrite H1; now apply IH].
+Qed.
+
+Lemma loud_cb_chan sid (c : cb State aid) :
+  (forall k, c <> CbEffectRun k) -> loud (ECb (XChan sid) c) = false.
+Proof. destruct c; cbn; intros H; try reflexivity. exfalso. now apply (H k). Qed.
+
+
+Definition louds h := filter loud h.
+
+Lemma louds_app h1 h2 : louds (h1 ++ h2) = louds h1 ++ louds h2.
+Proof. apply filter_app. Qed.
+Lemma louds_subdrops sid {Y} (l : list Y) : louds (rev (map (fun _ => ESubDrop (State := State) sid) l)) = [].
+Proof. induction l as [|c r IH]; [reflexivity|]. cbn. rewrite louds_app, IH. reflexivity. Qed.
+
+Lemma louds_cons e h : louds (e :: h) = if loud e then e :: louds h else louds h.
+Proof. reflexivity. Qed.
+
+Lemma sub_phase_louds w sid x ph w1 sr : sub_phase w sid x ph = Some (w1, sr) ->
+  louds (w_hist w1) = louds (w_hist w).
+Proof.
+  unfold sub_phase. destruct (get_chan (w_chans w) sid) as [c|].
+  - destruct (send_phase c x ph) as [[[c' sr'] dr]|]; [|discriminate].
+    intros H; injection H as <- <-. cbn. now rewrite louds_app, louds_subdrops.
+  - intros H; injection H as <- <-. reflexivity.
+Qed.
+
+Theorem step_stopped w t w' : stopped w -> step w t = Some w' ->
+  stopped w' /\ louds (w_hist w') = louds (w_hist w) /\ w_state w' = w_state w.
+Proof.
+  intros (CS & TI & PI & PO) H.
+  assert (CS' : close_state w') by (eapply step_close; eauto).
+  assert (TI' : inv_tids w') by (eapply step_tids; eauto).
+  destruct TI as [[pc G] _]. pose proof (pool_idle_reducer w pc PI G) as ->.
+  destruct (reducer_done_closed w CS G) as (O & A & Q).
+  assert (PIG : forall t0 th0, get_thread (w_threads w) t0 = Some th0 ->
+                negb (is_pool_thread th0) || thread_finished th0 = true).
+  { intros t0 th0 G0. exact (forallb_get (fun th => negb (is_pool_thread th) || thread_finished th) _ _ _ PI G0). }
+  step_cases H; use_frames.
+  (* the reducer is done, pool threads are finished: their steps do not exist *)
+  all: try (apply N.eqb_eq in Heqb; subst t; rewrite G in Heqo; discriminate Heqo).
+  all: try congruence.
+  (* a pool worker cannot be the stepping thread *)
+  all: try (match goal with G0 : get_thread (w_threads _) _ = Some (TClient ?r ?p ?pc) |- _ =>
+              pose proof (PIG _ _ G0) as PF; cbn in PF;
+              first
+              [ is_var r; destruct r as [|?];
+                [clear PF
+                |exfalso; cbn in PF;
+                 repeat match type of PF with context [match ?x with _ => _ end] => destruct x end;
+                 cbn in PF; discriminate PF]
+              | lazymatch r with
+                | Client => clear PF
+                | Worker _ =>
+                    exfalso; cbn in PF;
+                    repeat match type of PF with context [match ?x with _ => _ end] => destruct x end;
+                    cbn in PF; discriminate PF
+                end ] end).
+  (* no send on the dispatch queue happens in a closed store *)
+  all: try (match goal with G0 : get_thread (w_threads _) _ = Some (TClient _ _ _) |- _ =>
+              let CS0 := fresh in pose proof CS as CS0;
+              destruct CS0 as [O1 _ _ _|O1 A1 _ _ _|_ _ _ TA1 _]; [congruence|congruence|];
+              let F := fresh in pose proof (TA1 _ _ G0) as F; cbn in F; destruct F; discriminate end).
+  (* what remains: clients and channeled threads; nothing loud, the pool stays idle *)
+  all: split; [split; [exact CS'|split; [exact TI'|split]]|split].
+  all: try (rew_frames; exact PO).
+  all: try (rew_frames; reflexivity).
+  all: try (unfold pool_idle in *; rew_frames; repeat (apply (forallb_put (fun th => negb (is_pool_thread th) || thread_finished th)); [|reflexivity]); first [exact PI|assumption]).
+  all: try (rew_frames; rewrite ?louds_cons; cbn [loud];
+            repeat match goal with H : sub_phase _ _ _ _ = Some (?w1, _) |- context [w_hist ?w1] =>
+                     rewrite (sub_phase_louds _ _ _ _ _ _ H) end;
+            repeat (break_goal_match; cbn [loud]); reflexivity).
+Qed.
+
+(* ... and for ever: along every continuation of the run *)
+Theorem run_stopped : forall sched w w', stopped w -> run cfg w sched = Some w' ->
+  stopped w' /\ louds (w_hist w') = louds (w_hist w) /\ w_state w' = w_state w.
+Proof.
+  induction sched as [|t r IH]; intros w w' S H; cbn in H.
+  - injection H as <-. auto.
+  - destruct (step w t) as [w1|] eqn:E; [|discriminate].
+    destruct (step_stopped w t w1 S E) as (S1 & L1 & ST1).
+    destruct (IH w1 w' S1 H) as (S2 & L2 & ST2). split; [exact S2|split; congruence].
+Qed.
+
+(* the world in which a stop() that took the pool returns is a stopped world *)
+Theorem stop_return_stopped reducers mws progs w : (length progs <= 100)%nat ->
+  reachable cfg reducers mws progs w -> pool_idle w = true -> w_pool w = false -> stopped w.
+Proof.
+  intros L R PI PO. split; [eapply reachable_close; eauto|split; [eapply reachable_tids; eauto|auto]].
+Qed.
 
 End WorldStop.
+
+
+
+
